@@ -18,7 +18,7 @@ func init() {
 	}
 	register(&core.Rule{ID: "R-REACT-CAP", Props: []string{"C12"}, Doc: "tokenPool and input are made with the same capacity value — the fact that makes the post-token input send and the feedback send non-blocking", Run: ruleReactCap})
 	register(&core.Rule{ID: "R-REACT-INSERT", Props: []string{"C12", "C16"}, Doc: "every sync.Map call on stateTable that can create a key (Store, LoadOrStore, Swap) is reachable only after a successful send on tokenPool in the same function", Run: ruleReactInsert})
-	register(&core.Rule{ID: "R-REACT-ACCEPT", Props: []string{"C12"}, Doc: "after a token is taken every path to a normal return creates the table entry and sends the item on input (or gives the token back); exactly one token per insert", Run: ruleReactAccept})
+	register(&core.Rule{ID: "R-REACT-ACCEPT", Props: []string{"C12", "C16"}, Doc: "after a token is taken every path to a normal return creates the table entry and sends the item on input (or gives the token back); exactly one token per insert", Run: ruleReactAccept})
 	register(&core.Rule{ID: "R-REACT-RELEASE", Props: []string{"C12", "C16"}, Doc: "every receive from tokenPool is guarded by LoadAndDelete(...) loaded==true, every loaded==true path receives exactly once, and LoadAndDelete is the only deleting call on stateTable", Run: ruleReactRelease})
 	register(&core.Rule{ID: "R-REACT-CLOSED-GATE", Props: []string{"C12"}, Doc: "in ReceiveInsert and ReceiveFeedback every accepting effect (token send, table write, input send) is reachable only past a dedicated check that both ctx.Err() and freezeCtx.Err() are nil", Run: ruleReactGate})
 	register(&core.Rule{ID: "R-REACT-NONBLOCK", Props: []string{"C12"}, Doc: "ReceiveFeedback never touches tokenPool and offers its input send in a select with both Done arms; it replaces an entry only if one is present", Run: ruleReactNonblock})
@@ -621,9 +621,69 @@ func ruleReactRun(r *core.Reporter) {
 		return
 	}
 	r.Analysed(run.Fn)
+	name := core.FuncName(run.Fn)
+	// the run loop lives until Stop, not until Freeze: a frozen reactor accepts nothing new but still hands the seeds
+	// it accepted to the output. The context Freeze cancels (paired with the cancel function Freeze calls through
+	// context.WithCancel in Start) must not end the loop.
+	if fz := p.Func(rel(pkgReactor), "Freeze"); fz != nil {
+		frozen := map[string]bool{} // context field names cancelled by Freeze
+		cancelFields := map[string]bool{}
+		allInstrs(fz, func(in ssa.Instruction) {
+			if c, ok := in.(*ssa.Call); ok && ir.TypeName(c.Call.Value.Type()) == "context.CancelFunc" {
+				if _, f, okf := fieldOfLoad(c.Call.Value); okf {
+					cancelFields[f] = true
+				}
+			}
+		})
+		// pairing: composite literal / stores in Start: ctx field ← Extract#0, cancel field ← Extract#1 of the same WithCancel
+		for _, fn := range p.FuncsInPkg(rel(pkgReactor)) {
+			for _, f := range withAnon(fn) {
+				byCall := map[*ssa.Call][2]string{}
+				allInstrs(f, func(in ssa.Instruction) {
+					st, ok := in.(*ssa.Store)
+					if !ok {
+						return
+					}
+					ex, ok := st.Val.(*ssa.Extract)
+					if !ok {
+						return
+					}
+					wc, ok := ex.Tuple.(*ssa.Call)
+					if !ok || !ir.IsCallTo(wc, "context.WithCancel") {
+						return
+					}
+					if _, fld, okf := ir.FieldOf(st.Addr); okf {
+						pr := byCall[wc]
+						pr[ex.Index] = fld
+						byCall[wc] = pr
+					}
+				})
+				for _, pr := range byCall {
+					if cancelFields[pr[1]] && pr[0] != "" {
+						frozen[pr[0]] = true
+					}
+				}
+			}
+		}
+		bad := false
+		for _, si := range ir.Selects(run.Fn) {
+			for _, arm := range si.Arms {
+				cv, ok := ir.IsDoneChan(arm.State.Chan)
+				if !ok {
+					continue
+				}
+				if _, fld, okf := fieldOfLoad(cv); okf && frozen[fld] {
+					bad = true
+					r.Violated(name+"/lifetime", p.InstrPos(si.Sel), "the run loop has an arm on %s.Done(), the context reactor.Freeze cancels: at Freeze the goroutine that drains the input exits (dropping the seed in hand), so seeds accepted before the freeze never reach the output although a consumer reads it — their tokens and table entries stay", fld)
+				}
+			}
+		}
+		if !bad {
+			r.Held(name+"/lifetime", len(frozen), "no arm of the run loop listens to the context Freeze cancels (%v)", keys(frozen))
+		}
+	}
 	outs := map[string]bool{}
 	res := ir.ExactlyOnce(ir.Region{Start: run.Start, Header: run.Header}, forwardEvent(run, outs), ir.Opts{EdgeOK: pruneStopArms(run.Fn)})
-	name := core.FuncName(run.Fn)
 	switch {
 	case res.OK && len(outs) == 1 && strings.HasSuffix(keys(outs)[0], ".output") && strings.HasSuffix(run.InChan, ".input"):
 		r.Held(name, 1, "item received from input forwarded exactly once on output")
